@@ -76,7 +76,13 @@ def make_case(seed, shard, i):
     prog["mode"] = "AND"
     cm = gen_comment(r)
     placement = r.choice(["before", "before", "after", "both"])
-    return {"prog": prog, "rows": rows, "comment": cm, "placement": placement}
+    # a caller who set defaults on the instance before parsing: the comment's own settings still take effect
+    preset = {}
+    if r.random() < 0.3:
+        for mode, attr in (("return-mode", "collect_when_not_matched"), ("unmatched-mode", "unmatched_available"), ("logic-mode", "OR")):
+            if cm["modes"][mode] is not None and r.random() < 0.7:
+                preset[attr] = r.random() < 0.5
+    return {"prog": prog, "rows": rows, "comment": cm, "placement": placement, "preset": preset}
 
 
 _READS = {"n": 0}
@@ -97,12 +103,14 @@ def install_read_hook():
     CsvPath._vfy_reads = True
 
 
-def do_run(text, agg, capture_stdout=True):
+def do_run(text, agg, capture_stdout=True, preset=None):
     from vfy import diffrun, env, hooks
 
     install_read_hook()
     _READS["n"] = 0
     c, cap = env.new_csvpath(["collect", "print"])
+    for attr, val in (preset or {}).items():
+        setattr(c, attr, val)
     with env.quiet_stdout() as q, hooks.recording(agg) as rec:
         try:
             lines = c.collect(text)
@@ -137,8 +145,11 @@ def run_case(case, agg):
         half = len(cm["items"]) // 2
         text = render_comment(cm, cm["items"][:half]) + " " + body + " " + render_comment(dict(cm, free=""), cm["items"][half:])
     w = {"csvpath": text, "rows": rows, "modes": modes}
+    if case.get("preset"):
+        w["set_on_the_instance_before_parsing"] = case["preset"]
+        agg.count("runs_with_caller_defaults_overridden_by_comment")
     base = do_run(base_text, agg)
-    run = do_run(text, agg)
+    run = do_run(text, agg, preset=case.get("preset"))
     case["_scanned"] = any(ev["considered"] for ev in base["rec"].lines)
     if base["exc"]:
         return "undecided", None
@@ -231,7 +242,7 @@ def run_case(case, agg):
 def shape_of(case):
     cm = case["comment"]
     fshape = "/".join("".join("a" if ch.isalnum() else ("w" if ch.isspace() else "p") for ch in v)[:6] for _, v in cm["fields"])
-    return "|".join(f"{k[:3]}={v}" for k, v in cm["modes"].items()) + f"|{fshape}|{case['placement']}|{bool(cm['free'])}|" + lang.prog_shape(case["prog"])
+    return "|".join(f"{k[:3]}={v}" for k, v in cm["modes"].items()) + f"|{fshape}|{case['placement']}|{bool(cm['free'])}|{sorted((case.get('preset') or {}).items())}|" + lang.prog_shape(case["prog"])
 
 
 def run_one(case, agg):
